@@ -172,8 +172,11 @@ fn item_min_version(i: Item) -> u8 {
 }
 
 /// Library payload for an item (what the source hands to the server).
-fn item_payload(i: Item) -> Payload {
-    match item_entry(i) {
+fn item_payload(i: Item) -> Payload { entry_payload(item_entry(i)) }
+
+/// Library payload for a model entry.
+fn entry_payload(e: Entry) -> Payload {
+    match e {
         Entry::Origin { addr, len, max, asn } =>
             Payload::origin(MaxLenPrefix::new(Prefix::new(addr, len).unwrap(), Some(max)).unwrap(), Asn::from_u32(asn)),
         Entry::Key { ski, asn, info } =>
@@ -1695,6 +1698,276 @@ fn exec(cfg: &Cfg, hist: &[Ev]) -> Result<Exec, Vec<String>> {
 }
 
 // ======================================================================
+// The scale space: single exchanges over LARGE payload sets
+// ======================================================================
+//
+// House rule: every quantity that counts or measures something is swept
+// through 0..=40, the neighbourhoods of the powers of two and the documented
+// maxima. Here: the number of payload PDUs of a response, the octets of the
+// payload part of a response (IPv4 Prefix PDU 20 octets, IPv6 Prefix PDU 32,
+// Router Key PDU 32 + key info, ASPA PDU 12 + 4 per provider), the octets of
+// a key info and the number of providers of one ASPA PDU. Same oracle as in
+// the small space: after a completed step the client holds exactly the
+// source's set (count and members) for the state named in End of Data.
+
+#[derive(Clone, Copy, Debug, PartialEq, Eq)]
+enum ScaleKind { Reset, SerialAnnounce, SerialWithdraw }
+
+impl ScaleKind {
+    fn name(self) -> &'static str { match self { ScaleKind::Reset => "reset", ScaleKind::SerialAnnounce => "serial-announce", ScaleKind::SerialWithdraw => "serial-withdraw" } }
+}
+
+/// One case: `n` IPv4 origins, `m` IPv6 origins, optionally one router key
+/// with `key` octets of key info and one ASPA with `aspa` providers; `rev`
+/// reverses the order in which the source yields them.
+#[derive(Clone, Copy, Debug, PartialEq, Eq)]
+struct ScaleCase { version: u8, kind: ScaleKind, n: u32, m: u32, key: Option<u32>, aspa: Option<u32>, rev: bool }
+
+impl ScaleCase {
+    fn render(&self) -> String {
+        format!("scale v={} kind={} n={} m={} key={} aspa={} rev={}", self.version, self.kind.name(), self.n, self.m,
+            self.key.map(|k| k.to_string()).unwrap_or("-".into()), self.aspa.map(|k| k.to_string()).unwrap_or("-".into()), self.rev as u8)
+    }
+    fn parse(s: &str) -> Option<ScaleCase> {
+        let mut c = ScaleCase { version: 0, kind: ScaleKind::Reset, n: 0, m: 0, key: None, aspa: None, rev: false };
+        for tok in s.split_whitespace().skip(1) {
+            let (k, v) = tok.split_once('=')?;
+            let opt = |v: &str| if v == "-" { Some(None) } else { v.parse::<u32>().ok().map(Some) };
+            match k {
+                "v" => c.version = v.parse().ok()?,
+                "kind" => c.kind = [ScaleKind::Reset, ScaleKind::SerialAnnounce, ScaleKind::SerialWithdraw].into_iter().find(|x| x.name() == v)?,
+                "n" => c.n = v.parse().ok()?, "m" => c.m = v.parse().ok()?,
+                "key" => c.key = opt(v)?, "aspa" => c.aspa = opt(v)?,
+                "rev" => c.rev = v == "1",
+                _ => return None,
+            }
+        }
+        Some(c)
+    }
+    /// The model entries of the case, in the order the source yields them.
+    fn entries(&self) -> Vec<Entry> {
+        let mut v: Vec<Entry> = Vec::with_capacity((self.n + self.m + 2) as usize);
+        for i in 0..self.n {
+            v.push(Entry::Origin { addr: IpAddr::V4(Ipv4Addr::from(0x0A00_0000u32 + i)), len: 32, max: 32, asn: 64000 + i % 977 });
+        }
+        for j in 0..self.m {
+            v.push(Entry::Origin { addr: IpAddr::V6(Ipv6Addr::from((0x2001_0db8u128 << 96) | ((j as u128) << 64))), len: 64, max: 64 + (j % 65) as u8, asn: 65000 + j % 991 });
+        }
+        if let Some(l) = self.key { v.push(Entry::Key { ski: [7; 20], asn: 65551, info: (0..l).map(|i| (i * 13 % 251 + 1) as u8).collect() }) }
+        if let Some(p) = self.aspa { v.push(Entry::Aspa { customer: 70000, providers: (1..=p).collect() }) }
+        if self.rev { v.reverse() }
+        v
+    }
+    /// Octets of the payload PDUs of the response at this case's version.
+    fn payload_octets(&self) -> u64 {
+        20 * self.n as u64 + 32 * self.m as u64
+            + self.key.filter(|_| self.version >= 1).map(|l| 32 + l as u64).unwrap_or(0)
+            + self.aspa.filter(|_| self.version >= 2).map(|p| 12 + 4 * p as u64).unwrap_or(0)
+    }
+}
+
+const BIG_SESSION: u16 = 0x0B16;
+const BIG_SERIAL: u32 = 41;
+
+struct BigInner { full: Vec<Payload>, diff: Vec<(Payload, Action)> }
+#[derive(Clone)]
+struct BigSource(Arc<BigInner>);
+struct BigSet { src: Arc<BigInner>, pos: usize }
+struct BigDiff { src: Arc<BigInner>, pos: usize }
+impl PayloadSet for BigSet {
+    fn next(&mut self) -> Option<PayloadRef<'_>> { let p = self.src.full.get(self.pos)?; self.pos += 1; Some(p.as_ref()) }
+}
+impl PayloadDiff for BigDiff {
+    fn next(&mut self) -> Option<(PayloadRef<'_>, Action)> { let p = self.src.diff.get(self.pos)?; self.pos += 1; Some((p.0.as_ref(), p.1)) }
+}
+impl PayloadSource for BigSource {
+    type Set = BigSet;
+    type Diff = BigDiff;
+    fn ready(&self) -> bool { true }
+    fn notify(&self) -> State { State::from_parts(BIG_SESSION, Serial(BIG_SERIAL)) }
+    fn full(&self) -> (State, BigSet) { (self.notify(), BigSet { src: self.0.clone(), pos: 0 }) }
+    fn diff(&self, state: State) -> Option<(State, BigDiff)> {
+        if state.session() == BIG_SESSION && state.serial().0 == BIG_SERIAL - 1 { Some((self.notify(), BigDiff { src: self.0.clone(), pos: 0 })) } else { None }
+    }
+    fn timing(&self) -> Timing { Timing { refresh: 31, retry: 17, expire: 97 } }
+}
+
+#[derive(Debug)]
+struct ScaleOutcome { result: StepResult, state: Option<(u16, u32)>, data: Data, timing: Option<(u32, u32, u32)> }
+
+async fn scale_async(case: ScaleCase) -> ScaleOutcome {
+    let entries = case.entries();
+    let payloads: Vec<Payload> = entries.iter().cloned().map(entry_payload).collect();
+    let mut prev = Data::default();
+    let (full, diff, state) = match case.kind {
+        ScaleKind::Reset => (payloads, Vec::new(), None),
+        ScaleKind::SerialAnnounce => (Vec::new(), payloads.into_iter().map(|p| (p, Action::Announce)).collect(),
+            Some(State::from_parts(BIG_SESSION, Serial(BIG_SERIAL - 1)))),
+        ScaleKind::SerialWithdraw => {
+            for e in &entries { if entry_min_version(e) <= case.version { prev.announce(e.clone()); } }
+            (Vec::new(), payloads.into_iter().map(|p| (p, Action::Withdraw)).collect(), Some(State::from_parts(BIG_SESSION, Serial(BIG_SERIAL - 1))))
+        }
+    };
+    let src = BigSource(Arc::new(BigInner { full, diff }));
+    let obs = Arc::new(Mutex::new(Obs::default()));
+    let (c_end, s_end) = link(1 << 16, 1 << 16);
+    let listener = futures_util::stream::iter(vec![Ok::<Sock, std::io::Error>(Sock { io: s_end, obs })]);
+    tokio::spawn(Server::new(listener, NotifySender::new(), src).run());
+    let sock = CSock { io: c_end, consumed: Arc::new(AtomicU64::new(0)) };
+    let mut client = Client::with_initial_version(case.version, sock, Target { data: prev, ..Default::default() }, state);
+    settle().await;
+    let res = tokio::time::timeout(HORIZON, client.step()).await;
+    let result = match res { Ok(Ok(())) => StepResult::Ok, Ok(Err(e)) => StepResult::Err(format!("{:?}: {}", e.kind(), e)), Err(_) => StepResult::Hang };
+    ScaleOutcome { result, state: client.state().map(|s| (s.session(), s.serial().0)), data: client.target().data.clone(),
+        timing: client.target().reported_timing }
+}
+
+fn entry_min_version(e: &Entry) -> u8 { match e { Entry::Origin { .. } => 0, Entry::Key { .. } => 1, Entry::Aspa { .. } => 2 } }
+
+fn scale_exec(case: ScaleCase) -> Result<ScaleOutcome, Vec<String>> {
+    PANICS.with(|p| p.borrow_mut().clear());
+    let r = panic::catch_unwind(AssertUnwindSafe(move || {
+        let rt = tokio::runtime::Builder::new_current_thread().enable_time().start_paused(true).build().unwrap();
+        rt.block_on(scale_async(case))
+    }));
+    let panics = PANICS.with(|p| std::mem::take(&mut *p.borrow_mut()));
+    match r { Ok(o) if panics.is_empty() => Ok(o), Ok(_) => Err(panics), Err(_) => Err(if panics.is_empty() { vec!["panic".into()] } else { panics }) }
+}
+
+/// Judges one scale case; returns (outcome class, violations).
+fn scale_judge(case: &ScaleCase) -> (String, Vec<(&'static str, String)>) {
+    let out = match scale_exec(*case) {
+        Err(p) => return (format!("{}:panic", case.kind.name()), vec![("C06.step.no_panic", p.join(" | "))]),
+        Ok(o) => o,
+    };
+    let mut v = Vec::new();
+    match &out.result {
+        StepResult::Ok => {
+            let mut want = Data::default();
+            if case.kind != ScaleKind::SerialWithdraw {
+                for e in case.entries() { if entry_min_version(&e) <= case.version { want.announce(e); } }
+            }
+            if out.state != Some((BIG_SESSION, BIG_SERIAL)) {
+                v.push(("C06.state.eod", format!("client.state() = {:?}, the source's End of Data named {:?}", out.state, (BIG_SESSION, BIG_SERIAL))));
+            }
+            if out.data != want {
+                let have = out.data.plain.len() + out.data.aspa.len();
+                let exp = want.plain.len() + want.aspa.len();
+                let missing: Vec<String> = want.plain.iter().filter(|e| !out.data.plain.contains(*e)).take(3).map(|e| format!("{e:?}")).collect();
+                let extra: Vec<String> = out.data.plain.iter().filter(|e| !want.plain.contains(*e)).take(3).map(|e| format!("{e:?}")).collect();
+                v.push(("C06.data.equals_source", format!(
+                    "payload part of the response {} octets in {} PDUs: target holds {have} items, the source reported {exp}; first missing {missing:?}, first extra {extra:?}, ASPA {:?} vs {:?}",
+                    case.payload_octets(), case.n + case.m + case.key.filter(|_| case.version >= 1).map(|_| 1).unwrap_or(0) + case.aspa.filter(|_| case.version >= 2).map(|_| 1).unwrap_or(0),
+                    out.data.aspa.iter().map(|(c, p)| (*c, p.len())).collect::<Vec<_>>(), want.aspa.iter().map(|(c, p)| (*c, p.len())).collect::<Vec<_>>())));
+            }
+            if case.version >= 1 && out.timing != Some((31, 17, 97)) {
+                v.push(("C06.timing.equals_source", format!("client reports timing {:?}, source's is (31, 17, 97)", out.timing)));
+            }
+            (format!("{}:ok", case.kind.name()), v)
+        }
+        StepResult::Err(m) => (format!("{}:err:{}", case.kind.name(), rpki_verif::trunc(m, 50)), v),
+        StepResult::Hang => (format!("{}:hang", case.kind.name()), v),
+    }
+}
+
+/// All (n, m) with 20 n + 32 m = total.
+fn origin_splits(total: u64) -> Vec<(u32, u32)> {
+    let mut v = Vec::new();
+    let mut m = 0u64;
+    while 32 * m <= total {
+        let rest = total - 32 * m;
+        if rest % 20 == 0 { v.push(((rest / 20) as u32, m as u32)); }
+        m += 1;
+    }
+    v
+}
+
+fn first_middle_last<T: Clone>(v: &[T]) -> Vec<T> {
+    match v.len() { 0 => vec![], 1 => vec![v[0].clone()], 2 => v.to_vec(), n => vec![v[0].clone(), v[n / 2].clone(), v[n - 1].clone()] }
+}
+
+/// The case list (deterministic).
+fn scale_cases(thorough: bool) -> Vec<ScaleCase> {
+    let kinds = [ScaleKind::Reset, ScaleKind::SerialAnnounce, ScaleKind::SerialWithdraw];
+    let mut out: Vec<ScaleCase> = Vec::new();
+    let mut push = |version: u8, kind: ScaleKind, n: u32, m: u32, key: Option<u32>, aspa: Option<u32>, rev: bool| {
+        out.push(ScaleCase { version, kind, n, m, key, aspa, rev });
+    };
+    // (A) number of payload PDUs: 0..=40 and the neighbourhoods of 2048 and 4096
+    //     (thorough: of every power of two from 64 to 8192), all v4 / all v6 / half and half
+    let mut counts: Vec<u32> = (0..=40).collect();
+    let pows: &[u32] = if thorough { &[64, 128, 256, 512, 1024, 2048, 4096, 8192] } else { &[2048, 4096] };
+    for p in pows { counts.extend([p - 1, *p, p + 1]); }
+    for &c in &counts { for version in 0..=2u8 { for kind in kinds {
+        for (n, m) in [(c, 0), (0, c), (c / 2, c - c / 2)] { push(version, kind, n, m, None, None, false); }
+    }}}
+    // (B) octets of the payload part of the response: every (n, m) that hits the
+    //     power of two exactly (origin PDUs are multiples of 4 octets) as a reset
+    //     at every version; first/middle/last and every 16th also as serial
+    //     exchanges and in reverse order; the -1/+1 neighbours through a router
+    //     key with 60..=63 octets of key info (versions 1, 2) and the exact value
+    //     again with a 4-provider ASPA in it (version 2).
+    //     quick: 4096, 16384, 65536 in full, 131072 first/middle/last;
+    //     thorough: + 131072 and 262144 in full.
+    let totals: &[(u64, bool)] = if thorough { &[(4096, true), (16384, true), (65536, true), (131072, true), (262144, true)] }
+        else { &[(4096, true), (16384, true), (65536, true), (131072, false)] };
+    for &(t, all) in totals {
+        let splits = origin_splits(t);
+        let chosen: Vec<(u32, u32)> = if all { splits.clone() } else { first_middle_last(&splits) };
+        for (i, &(n, m)) in chosen.iter().enumerate() {
+            for version in 0..=2u8 { push(version, ScaleKind::Reset, n, m, None, None, false); }
+            let sampled = i % 16 == 0 || i + 1 == chosen.len() || i == chosen.len() / 2;
+            if sampled { for version in 0..=2u8 {
+                push(version, ScaleKind::Reset, n, m, None, None, true);
+                for kind in [ScaleKind::SerialAnnounce, ScaleKind::SerialWithdraw] { for rev in [false, true] { push(version, kind, n, m, None, None, rev); } }
+            }}
+        }
+        for d in [-1i64, 1] { for l in 60..=63u32 {
+            let rest = t as i64 + d - 32 - l as i64;
+            if rest < 0 { continue }
+            for (n, m) in first_middle_last(&origin_splits(rest as u64)) { for version in 1..=2u8 { for kind in kinds { for rev in [false, true] {
+                push(version, kind, n, m, Some(l), None, rev);
+            }}}}
+        }}
+        for (n, m) in first_middle_last(&origin_splits(t - 28)) { for kind in kinds { for rev in [false, true] { push(2, kind, n, m, None, Some(4), rev); } } }
+    }
+    // (C) octets of one key info and number of providers of one ASPA PDU: 0..=40, the
+    //     neighbourhoods of the powers of two, the documented maximum of 16380 providers
+    let mut lens: Vec<u32> = (0..=40).collect();
+    for p in [64u32, 128, 256, 1024, 4096, 16384, 65536] { lens.extend([p - 1, p, p + 1]); }
+    if thorough { lens.extend([(1 << 18) - 1, 1 << 18, (1 << 18) + 1, (1 << 20) - 1, 1 << 20, (1 << 20) + 1]); }
+    for &l in &lens { for version in 1..=2u8 { for kind in kinds { push(version, kind, 1, 1, Some(l), None, false); } } }
+    let mut provs: Vec<u32> = (0..=40).collect();
+    for p in [64u32, 128, 256, 1024, 4096] { provs.extend([p - 1, p, p + 1]); }
+    provs.extend([16379, 16380]);
+    for &p in &provs { for kind in kinds { push(2, kind, 1, 1, None, Some(p), false); } }
+    out
+}
+
+/// Runs the scale space.
+fn scale_space(ctx: &Ctx, thorough: bool) {
+    let sp = ctx.space("rtr.scale",
+        "single reset / serial-announce / serial-withdraw exchanges (real Client::step against the real Server over a roomy pipe) over LARGE sets at versions 0..2: (A) number of payload PDUs 0..=40 and 2047..2049, 4095..4097 [thorough: every power of two 64..8192] as all-IPv4, all-IPv6 and mixed; (B) octets of the payload part of the response: EVERY (n IPv4, m IPv6) with 20n+32m = 4096, 16384, 65536 [quick: 131072 first/middle/last; thorough: 131072 and 262144 in full] as reset at each version, a sample also as serial exchanges and reversed, the -1/+1 neighbours through a router key of 60..63 octets, the exact value again with an ASPA inside; (C) key info of 0..=40 and 2^k-1..2^k+1 octets up to 65537 [thorough: 2^18, 2^20], ASPA with 0..=40, 2^k-1..2^k+1 and 16379, 16380 (the documented maximum) providers; oracle: client data equals the source's set (count and members), state and timing as in the small space; non-trivial = cases with at least one payload PDU");
+    let cases = scale_cases(thorough);
+    let results: Vec<(String, Vec<(&'static str, String)>)> = cases.par_iter().map(scale_judge).collect();
+    let mut octets_max = 0u64;
+    let mut ok = 0u64;
+    for (case, (class, viols)) in cases.iter().zip(results) {
+        sp.eval();
+        if case.n + case.m > 0 || case.key.is_some() || case.aspa.is_some() { sp.nontrivial(1) }
+        octets_max = octets_max.max(case.payload_octets());
+        if class.ends_with(":ok") { ok += 1 }
+        sp.outcome(&class);
+        for (o, d) in viols { ctx.fail(o, case.render(), d) }
+    }
+    if ok * 10 < cases.len() as u64 * 9 { ctx.machinery_error(format!("rtr.scale: only {ok} of {} exchanges completed", cases.len())) }
+    sp.sample_str(|| cases.iter().find(|c| c.payload_octets() == 65536).map(|c| c.render()).unwrap_or_default());
+    sp.set("largest_payload_part_octets", json!(octets_max));
+    sp.set("completed_exchanges", json!(ok));
+    sp.done(true, &format!("{} exchanges, payload part up to {octets_max} octets", cases.len()));
+}
+
+// ======================================================================
 // The explorer
 // ======================================================================
 
@@ -1785,6 +2058,13 @@ fn main() {
 
     // ---- replay of a single recorded case ----
     if let Some((_oracle, wit)) = ctx.replay.clone() {
+        if wit.starts_with("scale ") {
+            match ScaleCase::parse(&wit) {
+                None => ctx.machinery_error(format!("cannot parse replay witness {wit}")),
+                Some(case) => { let (class, viols) = scale_judge(&case); println!("replay: {} -> {class}", case.render()); for (o, d) in viols { ctx.fail(o, case.render(), d) } }
+            }
+            ctx.finish();
+        }
         match Cfg::parse(&wit) {
             None => ctx.machinery_error(format!("cannot parse replay witness {wit}")),
             Some((cfg, hist)) => match exec(&cfg, &hist) {
@@ -1803,6 +2083,12 @@ fn main() {
         }
         ctx.finish();
     }
+
+    // the scale space first: it is small and must not depend on how far the
+    // wall-clock safety net lets the history exploration get
+    let t_scale = WallInstant::now();
+    scale_space(&ctx, thorough);
+    println!("C06: scale space wall={:.1}s", t_scale.elapsed().as_secs_f64());
 
     // The depth bound is far beyond the depth at which the frontier empties
     // (13 / 14 measured): both tiers run to the fixpoint; the wall-clock cap
@@ -2006,6 +2292,9 @@ fn main() {
     // ---- replay-determinism self check: two histories, each executed twice more ----
     let mut det_checked = 0;
     let mut det_ok = true;
+    // (if the exploration was stopped very early, two fixed histories stand in)
+    let first_step_node = first_step_node.or_else(|| roots.first().map(|c| (*c, vec![Ev::Step, Ev::Update(0), Ev::Step])));
+    let last_new_node = last_new_node.or_else(|| roots.last().map(|c| (*c, vec![Ev::Update(6), Ev::Notify, Ev::Step])));
     for cand in [first_step_node.clone(), last_new_node.clone()].into_iter().flatten() {
         let a = exec(&cand.0, &cand.1);
         let b = exec(&cand.0, &cand.1);
